@@ -335,7 +335,9 @@ class Live:
         self.ops = []                      # step kinds so far
         self.last_op = "construct"
         self.scale = G.scale_of(desc)
-        self.add = TOLF * self.scale + TOLA
+        self.f = float(meta.get("f", 1.0))                      # similarity factor of the magnitude class (1e-6 | 1 | 1e6)
+        self.mag = max(G.magnitude_of(desc), 1e-3 * self.f)
+        self.add = TOLF * self.scale + TOLA * max(self.mag, 1e-3)
         self.model_theta = float(desc.get("theta", 0.0))
         c = G.centre_of(desc)
         self.model_centre = None if c is None else tuple(float(v) for v in c)
@@ -363,7 +365,7 @@ class Live:
 
     def struct(self):
         """Structural features of the live object for signatures."""
-        s = {"roi": CLASSNAME[self.kind], "shape": self.kind, "variant": self.meta["variant"]}
+        s = {"roi": CLASSNAME[self.kind], "shape": self.kind, "variant": self.meta["variant"], "magnitude": self.meta.get("magnitude", "1")}
         if self.kind in ("rect", "ellipse"):
             s["theta_group"] = theta_group_of(self.model_theta)
         if self.kind == "polygon":
@@ -394,12 +396,12 @@ def guarded(ctx, live, opname, fn, extra=None):
 
 
 # ---------------------------------------------------------------- point sets
-def base_pool(rng, desc, add):
+def base_pool(rng, desc, add, f=1.0):
     """Points in the frame of the original descriptor: frame-uniform, bbox lattice, random, boundary +- k*tol, far."""
     k = desc["k"]
     xs, ys = [], []
     x0, x1, y0, y1 = G.bbox_of(desc)
-    w, h = max(x1 - x0, 1e-4), max(y1 - y0, 1e-4)
+    w, h = max(x1 - x0, 1e-4 * f), max(y1 - y0, 1e-4 * f)
     pad = 0.3
     # shape-frame sampling keeps about 40 % of the points inside however thin the shape is
     if k in ("rect", "ellipse", "circle", "annulus"):
@@ -411,7 +413,7 @@ def base_pool(rng, desc, add):
         else:
             r = desc["r"] if k == "circle" else desc["ro"]
             cx, cy, hu, hv, th = desc["xc"], desc["yc"], r, r, 0.0
-        hu, hv = max(hu, 1e-6), max(hv, 1e-6)
+        hu, hv = max(hu, 1e-6 * f), max(hv, 1e-6 * f)
         c, s = math.cos(th), math.sin(th)
         for _ in range(110):
             u, v = rng.uniform(-1.35, 1.35) * hu, rng.uniform(-1.35, 1.35) * hv
@@ -435,8 +437,8 @@ def base_pool(rng, desc, add):
         xs.append(rng.uniform(x0 - pad * w, x1 + pad * w))
         ys.append(rng.uniform(y0 - pad * h, y1 + pad * h))
     for _ in range(10):
-        xs.append(rng.uniform(-40, 40))
-        ys.append(rng.uniform(-40, 40))
+        xs.append(rng.uniform(-40, 40) * f)
+        ys.append(rng.uniform(-40, 40) * f)
     for (bx, by, nx, ny) in G.boundary_points(desc, 36, rng):
         kk = rng.choice([-1000.0, -30.0, -3.0, -0.1, 0.0, 0.1, 3.0, 30.0, 1000.0])
         xs.append(bx + nx * kk * add)
@@ -539,11 +541,12 @@ def compare(ctx, live, res, x, y, op, presentation, mul=0.0, extra_band=None, ex
     ctx.count("comparisons_op:" + op)
     ctx.count("comparisons_shape_op:%s:%s" % (live.kind, op))
     ctx.count("comparisons_presentation:" + presentation)
+    ctx.count("comparisons_magnitude:" + live.meta.get("magnitude", "1"))
     if live.kind in ("rect", "ellipse"):
         ctx.count("comparisons_theta:%s:%s" % (live.kind, theta_group_of(live.model_theta)))
         ctx.count("theta_class_at_construction:" + live.meta["theta_class"])
     fp = [live.kind, live.meta["variant"], live.meta.get("theta_class"), live.meta.get("closed"), list(live.ops), presentation, fp_extra,
-          theta_group_of(live.model_theta) if live.kind in ("rect", "ellipse") else None]
+          theta_group_of(live.model_theta) if live.kind in ("rect", "ellipse") else None, live.meta.get("magnitude", "1")]
     ctx.evaluation(fp, nontrivial=(0 < nin < ncmp))
     bad = (got != inside) & cmp_
     if bad.any():
@@ -601,7 +604,7 @@ def polygon_centre(ctx, live, roi, inner=None):
     if live.kind == "polygon":
         inner = live if inner is None else inner
         vx, vy = inner.forward(np.array(live.desc["vx"]), np.array(live.desc["vy"]))
-        ext = max(vx.max() - vx.min(), vy.max() - vy.min(), 1e-3)
+        ext = max(vx.max() - vx.min(), vy.max() - vy.min(), 1e-3 * inner.f)
         ok = (math.isfinite(c[0]) and math.isfinite(c[1]) and vx.min() - 1e4 * ext <= c[0] <= vx.max() + 1e4 * ext and
               vy.min() - 1e4 * ext <= c[1] <= vy.max() + 1e4 * ext)
         ctx.count("polygon_centre_plausibility_checks")
@@ -615,7 +618,7 @@ def polygon_centre(ctx, live, roi, inner=None):
 
 
 def centre_tol(live, *vals):
-    return 1e-9 * (1.0 + live.scale + sum(abs(v) for v in vals))
+    return 1e-9 * (live.mag + live.scale + sum(abs(v) for v in vals))
 
 
 def check_centre(ctx, live, op):
@@ -661,14 +664,14 @@ def step_move(ctx, live):
     rng = ctx.rng
     if live.kind == "range":
         c0 = float(guarded(ctx, live, "center", lambda: live.roi.center()))
-        t = round(rng.uniform(-6, 6), 3)
+        t = round(rng.uniform(-6, 6), 3) * live.f
         guarded(ctx, live, "move_to", lambda: live.roi.move_to(t))
         d = t - c0
         live.chain.append(("move", d, 0.0) if live.desc["ori"] == "x" else ("move", 0.0, d))
         live.model_centre = (t,)
     else:
         c0 = polygon_centre(ctx, live, live.roi)
-        tx, ty = round(rng.uniform(-6, 6), 3), round(rng.uniform(-6, 6), 3)
+        tx, ty = round(rng.uniform(-6, 6), 3) * live.f, round(rng.uniform(-6, 6), 3) * live.f
         if rng.random() < 0.15:
             tx = c0[0]                          # pure vertical move
         elif rng.random() < 0.15:
@@ -698,7 +701,7 @@ def step_rotate(ctx, live):
             tcls = "half_turn_family"
         dtheta = theta2 - cur
         if live.kind == "polygon" and rng.random() < 0.25:
-            explicit = (round(rng.uniform(-3, 3), 2), round(rng.uniform(-3, 3), 2))
+            explicit = (round(rng.uniform(-3, 3), 2) * live.f, round(rng.uniform(-3, 3), 2) * live.f)
             guarded(ctx, live, "rotate_to", lambda: live.roi.rotate_to(theta2, center=explicit))
         else:
             guarded(ctx, live, "rotate_to", lambda: live.roi.rotate_to(theta2))
@@ -771,9 +774,17 @@ STEP_FN = {"move": step_move, "rotate": step_rotate, "copy": step_copy, "restore
 def run_instance_2d(ctx, kind):
     rng = ctx.rng
     desc, meta = GEN2D[kind](rng)
+    # magnitude classes: the whole configuration (region, points, move targets) under the similarity p -> f p
+    meta["magnitude"], meta["f"] = "1", 1.0
+    if meta["variant"] != "int_params" and rng.random() < 0.24:
+        meta["magnitude"], meta["f"] = rng.choice([("1e-6", 1e-6), ("1e6", 1e6)])
+        desc = G.scaled(desc, meta["f"])
+        if kind == "polygon":
+            meta["signed_area_class"] = signed_area_class(desc)
     live = Live(kind, desc, meta, None)
     live.roi = guarded(ctx, live, "construct", lambda: build2d(desc, meta))
-    live.pool = base_pool(rng, desc, live.add)
+    live.pool = base_pool(rng, desc, live.add, live.f)
+    ctx.count("magnitude:" + meta["magnitude"])
     ctx.count("instances:" + CLASSNAME[kind])
     ctx.count("variant:%s:%s" % (kind, meta["variant"]))
     if kind == "polygon":
@@ -861,8 +872,14 @@ def run_instance_categorical(ctx):
 
 
 # ---------------------------------------------------------------- projected 3-d
+MATRIX_KINDS = ["identity", "orthographic", "perspective", "affine_w_scaled", "affine_all_scaled", "perspective_one_term_w_scaled"]
+
+
 def gen_matrix(rng):
-    kind = rng.choice(["orthographic", "orthographic", "perspective", "perspective", "identity"])
+    """4x4 projection matrices.  Homogeneous w after projection: constant 1 (identity, orthographic), constant s != 1
+    (bottom row (0,0,0,s), s in {2, 0.5, -3, 1e-3}: affine_w_scaled; the whole affine matrix times s: affine_all_scaled),
+    varying (perspective: three perspective terms; perspective_one_term_w_scaled: one term and s != 1, also negative)."""
+    kind = rng.choice(MATRIX_KINDS)
     if kind == "identity":
         return np.eye(4), kind
     a, b, c = (rng.uniform(0, 2 * math.pi) for _ in range(3))
@@ -872,9 +889,17 @@ def gen_matrix(rng):
     m = np.eye(4)
     m[:3, :3] = (rx @ ry @ rz) * rng.choice([0.5, 1.0, 2.0])
     m[:3, 3] = [rng.uniform(-2, 2) for _ in range(3)]
+    s = rng.choice([2.0, 0.5, -3.0, 1e-3])
     if kind == "perspective":
         m[3, :3] = [rng.uniform(-0.08, 0.08), rng.uniform(-0.08, 0.08), rng.uniform(-0.15, 0.15)]
         m[3, 3] = rng.choice([1.0, 2.0, 0.5])
+    elif kind == "affine_w_scaled":
+        m[3, 3] = s
+    elif kind == "affine_all_scaled":
+        m = m * s
+    elif kind == "perspective_one_term_w_scaled":
+        m[3, rng.randrange(3)] = rng.choice([-0.1, 0.05, 0.12]) * abs(s)
+        m[3, 3] = s
     return m, kind
 
 
@@ -900,6 +925,7 @@ def run_instance_proj3d(ctx, big=False):
     live.pool = base_pool(rng, desc, live.add)
     ctx.count("instances:Projected3dROI")
     ctx.count("variant:proj3d:%s:%s" % (mkind, ikind))
+    meta["magnitude"], meta["f"] = "1", 1.0
     minv = np.linalg.inv(m)
     nsteps = 1 if big else rng.randint(2, 4)
     hist = []
@@ -955,9 +981,11 @@ def run_instance_proj3d(ctx, big=False):
             if CHUNK_SEEN[0] > 1:
                 ctx.count("contains3d_calls_with_several_chunks")
             ctx.count("contains3d_calls")
+            ctx.count("contains3d_calls_projection:" + mkind)
             xb, yb, zb = np.broadcast_arrays(*[np.asarray(a_, dtype=float) for a_ in args])
             px, py, pw = project(m, xb, yb, zb)
-            bad_w = np.abs(pw) < 1e-6
+            wmag = abs(m[3, 0]) * np.abs(xb) + abs(m[3, 1]) * np.abs(yb) + abs(m[3, 2]) * np.abs(zb) + abs(m[3, 3])
+            bad_w = np.abs(pw) < 1e-6 * wmag
             ctx.count("proj3d_points_excluded_near_zero_w", int(bad_w.sum()))
             px = np.where(bad_w, 0.0, px)
             py = np.where(bad_w, 0.0, py)
@@ -1091,6 +1119,12 @@ def floors(counters, tier):
                         ("range", "move_to", 40)):
         if g("comparisons_shape_op:%s:%s" % (k, op), 0) < need:
             out.append("fewer than %d comparisons after %s on %s" % (need, op, k))
+    for mk in MATRIX_KINDS:
+        if g("contains3d_calls_projection:" + mk, 0) < 40:
+            out.append("fewer than 40 contains3d comparisons with projection class %s" % mk)
+    for mg in ("1e-6", "1", "1e6"):
+        if g("comparisons_magnitude:" + mg, 0) < 150:
+            out.append("fewer than 150 comparisons at coordinate magnitude %s" % mg)
     if g("polygon_closed", 0) < 25 or g("polygon_open", 0) < 25:
         out.append("fewer than 25 closed or open polygons")
     pc, pi = g("points_compared", 0), g("points_compared_inside", 0)
